@@ -37,17 +37,23 @@ Admits(lg, lv) == lv <= lg.lv
 AllApps(cfg) == UNION {cfg[n].apps : n \in DOMAIN cfg}
 
 \* "the most specific logger that names that appender and whose name is a prefix
-\*  of the target admits the level"
-ByOwnRule(cfg, t, lv, a) ==
+\*  of the target": its level, or 0 (admits nothing) when no such logger exists
+Rule(cfg, t, a) ==
   LET Ma == {n \in Matching(cfg, t) : a \in cfg[n].apps}
-  IN  Ma # {} /\ Admits(cfg[MostSpecific(Ma)], lv)
+  IN  IF Ma = {} THEN 0 ELSE cfg[MostSpecific(Ma)].lv
 
-Deliver(cfg, t, lv) ==
+\* "... except that when the most specific matching logger overall is
+\*  non-additive only that logger's own appenders can receive it"
+Reach(cfg, t) ==
   LET M == Matching(cfg, t)
-      Base == {a \in AllApps(cfg) : ByOwnRule(cfg, t, lv, a)}
   IN  IF M = {} THEN {}
-      ELSE LET w == MostSpecific(M)            \* most specific matching logger overall
-           IN  IF cfg[w].add THEN Base ELSE Base \cap cfg[w].apps
+      ELSE LET w == MostSpecific(M)
+           IN  IF cfg[w].add THEN AllApps(cfg) ELSE cfg[w].apps
+
+\* appender |-> least severe level it receives for this target (0: none)
+Threshold(cfg, t) == [a \in Reach(cfg, t) |-> Rule(cfg, t, a)]
+
+Deliver(cfg, t, lv) == {a \in Reach(cfg, t) : lv <= Rule(cfg, t, a)}
 
 (***************************************************************************)
 (* Consequences of the sentence, checked by MC_RouteA over all small       *)
@@ -62,7 +68,7 @@ L_Isolation(cfg, t, lv) ==
   IN  (M # {} /\ ~cfg[MostSpecific(M)].add) => Deliver(cfg, t, lv) \subseteq cfg[MostSpecific(M)].apps
 \* more severe events are delivered wherever less severe ones are
 L_Monotone(cfg, t) ==
-  \A l1, l2 \in 1..5 : l1 <= l2 => Deliver(cfg, t, l2) \subseteq Deliver(cfg, t, l1)
+  \A l \in 1..4 : Deliver(cfg, t, l + 1) \subseteq Deliver(cfg, t, l)
 \* loggers that do not match the target are irrelevant
 L_Locality(cfg, t, lv) ==
   LET M == Matching(cfg, t)
